@@ -9,8 +9,16 @@
 
 static long fail_from = -1;
 static long count = 0;
+static int fail_errno = ENOMEM;
 
+/* k >= 1000 encodes the errno to report: k = 1000*errno + first failing request */
 void verif_mlock_fail_from(long k) {
+    if (k >= 1000) {
+        fail_errno = (int)(k / 1000);
+        k = k % 1000;
+    } else {
+        fail_errno = ENOMEM;
+    }
     fail_from = k;
     count = 0;
 }
@@ -20,7 +28,7 @@ int mlock(const void *addr, size_t len) {
     if (!real) real = (int (*)(const void *, size_t))dlsym(RTLD_NEXT, "mlock");
     count++;
     if (fail_from >= 1 && count >= fail_from) {
-        errno = ENOMEM;
+        errno = fail_errno;
         return -1;
     }
     return real(addr, len);
